@@ -325,6 +325,7 @@ class ContractionProcessor:
         "track_flops",
         "flops",
         "flops_limit",
+        "batch_factor",
     )
 
     def __init__(
@@ -370,6 +371,9 @@ class ContractionProcessor:
         self.track_flops = track_flops
         self.flops = 0
         self.flops_limit = flops_limit
+        # combined size of the indices dropped by `simplify_batch`: every
+        # later pairwise contraction still runs over them
+        self.batch_factor = 1
 
     def copy(self):
         new = ContractionProcessor.__new__(ContractionProcessor)
@@ -383,6 +387,7 @@ class ContractionProcessor:
         new.track_flops = self.track_flops
         new.flops = self.flops
         new.flops_limit = self.flops_limit
+        new.batch_factor = self.batch_factor
         return new
 
     def neighbors(self, i):
@@ -451,7 +456,9 @@ class ContractionProcessor:
         jlegs = self.pop_node(j)
 
         if self.track_flops:
-            self.flops += compute_flops(ilegs, jlegs, self.sizes)
+            self.flops += self.batch_factor * compute_flops(
+                ilegs, jlegs, self.sizes
+            )
 
         if new_legs is None:
             new_legs = compute_contracted(ilegs, jlegs, self.appearances)
@@ -470,6 +477,7 @@ class ContractionProcessor:
             if len(ix_nodes) >= len(self.nodes):
                 ix_to_remove.append(ix)
         for ix in ix_to_remove:
+            self.batch_factor *= self.sizes[ix]
             self.remove_ix(ix)
 
     def simplify_single_terms(self):
